@@ -6,6 +6,7 @@ if none is found the violation is still reported (`no-failing-input-found`).
 import glob
 import json
 import os
+import shutil
 import random
 import struct
 import subprocess
@@ -14,16 +15,33 @@ import time
 REPLAY_DIR = 'replay'
 
 
-def build_replay(here, quiet=True):
-    """(Re)build the replay crate against /repo's current working tree (path dependency)."""
-    d = os.path.join(here, REPLAY_DIR)
-    env = dict(os.environ, CARGO_NET_OFFLINE='true')
+def _replay_dir(here):
+    """The replay crate is built in /verif/replay against /repo, and in a separate copy under .work/ against a scratch
+    tree (VX_REPO): the two must not share a target directory, libhaystack's un-hashed cdylib/rlib outputs would go stale."""
     repo = os.environ.get('VX_REPO', '/repo')
-    want = open(os.path.join(d, 'Cargo.toml.in')).read().replace('{REPO}', repo)
+    if repo == '/repo':
+        return os.path.join(here, REPLAY_DIR), repo, False
+    return os.path.join(here, '.work', 'replay-scratch'), repo, True
+
+
+def build_replay(here, quiet=True):
+    """(Re)build the replay crate against the current working tree of the repository under check (path dependency)."""
+    d, repo, scratch = _replay_dir(here)
+    env = dict(os.environ, CARGO_NET_OFFLINE='true')
+    src = os.path.join(here, REPLAY_DIR)
+    if scratch:
+        os.makedirs(os.path.join(d, 'src'), exist_ok=True)
+        for f in ('src/main.rs', 'Cargo.lock'):
+            if os.path.exists(os.path.join(src, f)):
+                shutil.copy(os.path.join(src, f), os.path.join(d, f))
+    want = open(os.path.join(src, 'Cargo.toml.in')).read().replace('{REPO}', repo)
     toml = os.path.join(d, 'Cargo.toml')
     if not os.path.exists(toml) or open(toml).read() != want:
         with open(toml, 'w') as f:
             f.write(want)
+    if scratch:
+        subprocess.run(['cargo', 'clean', '--release', '--offline', '-p', 'libhaystack'], cwd=d, env=env,
+                       stdout=subprocess.DEVNULL, stderr=subprocess.DEVNULL)
     p = subprocess.run(['cargo', 'build', '--release', '--offline'], cwd=d, env=env,
                        stdout=subprocess.PIPE, stderr=subprocess.STDOUT, text=True)
     if p.returncode != 0:
@@ -34,7 +52,7 @@ def build_replay(here, quiet=True):
 
 
 def replay_bin(here):
-    return os.path.join(here, REPLAY_DIR, 'target', 'release', 'replay')
+    return os.path.join(_replay_dir(here)[0], 'target', 'release', 'replay')
 
 
 def run_replay(here, family, args, timeout=10):
